@@ -3,7 +3,11 @@
    for every run of literal bytes and referenced characters, the decoding of Spec/Text.v; a referenced
    character never encodes to zero bytes (encode_utf8_nonempty); the same on the model's own loop;
    (2) CDATA sections are normalised like literals; (3) any number of fragments of one run end up in
-   exactly one Text node holding their concatenation (after_text protocol).
+   exactly one Text node holding their concatenation (after_text protocol); (4) whole documents, fragment of
+   Spec/CstText.v (text runs made of literals incl. CR / CR LF, character references, predefined references and
+   CDATA sections; ASCII source, no DOCTYPE / namespaces): every rendering parses to exactly its meaning, where a
+   run denotes ONE Text node holding decode_chunks of its pieces (Spec/Text.v) -- parse_render_sem_text -- so
+   documents that differ only in how a string is spelled (&amp; / &#38; / CDATA) give the same tree.
    Statements are pinned here (copied verbatim from the proof files by tools/pin_props.py);
    each is re-proved by `exact` and followed by Print Assumptions. *)
 From Coq Require Import Ascii String.
@@ -12,8 +16,38 @@ Import ListNotations.
 From RX Require Import Generated.
 From RX.Model Require Import Base CharClass Stream Tokenizer Doc Builder Parse Api.
 From RX.Spec Require Import Text.
-From RX.Proofs Require Import TextMachine TextMerge.
+From RX.Spec Require Cst CstText.
+From RX.Proofs Require Import TextMachine TextMerge CstMain CstTextMain.
 Open Scope N_scope.
+
+(* ---- Proofs/CstTextMain.v ---- *)
+Module G0.
+Module T := CstText.
+Theorem C04_parse_render_sem_text :
+  forall (c : T.doc) (opt : options),
+  T.wf_doc c = true ->
+  N.of_nat (length (T.sem c)) < nodes_limit opt ->            (* room for all nodes + the Root *)
+  N.of_nat (length (T.render c)) <= u32_max ->                 (* the input is at most u32::MAX bytes long *)
+  exists d, parse (T.render c) opt = Ok d /\
+            view (T.render c) d = T.sem c /\
+            (forall nd ns local ar nss, In nd (d_nodes d) -> nd_kind nd = KElement ns local ar nss -> ns = None) /\
+            (forall a, In a (d_attrs d) -> ad_ns_idx a = None).
+Proof. exact parse_render_sem_text. Qed.
+Print Assumptions C04_parse_render_sem_text.
+
+Theorem C04_piece_choice_insensitive :
+  forall c1 c2 opt,
+  T.wf_doc c1 = true -> T.wf_doc c2 = true ->
+  same_item (T.d_root c1) (T.d_root c2) ->
+  map fst (T.d_before c1) = map fst (T.d_before c2) -> map snd (T.d_after c1) = map snd (T.d_after c2) ->
+  N.of_nat (length (T.sem c1)) < nodes_limit opt ->
+  N.of_nat (length (T.render c1)) <= u32_max -> N.of_nat (length (T.render c2)) <= u32_max ->
+  exists d1 d2, parse (T.render c1) opt = Ok d1 /\ parse (T.render c2) opt = Ok d2 /\
+                view (T.render c1) d1 = view (T.render c2) d2.
+Proof. exact piece_choice_insensitive. Qed.
+Print Assumptions C04_piece_choice_insensitive.
+
+End G0.
 
 (* ---- Proofs/TextMachine.v ---- *)
 Theorem C04_text_chunks_decode_partial :
